@@ -822,7 +822,8 @@ class map_async(Stream):
                 results = self._emit(result, metadata=metadata)
                 if results:
                     await asyncio.gather(*results)
-            self._release_refs(metadata)
+                # an element whose evaluation raised is never reported as done
+                self._release_refs(metadata)
 
     async def _wait_for_work_slot(self):
         while self.work_queue.full():
